@@ -66,6 +66,7 @@ func (g *gen) writeExprOther(b *buffer, n *a.Expr, sideEffectsOnly bool, depth u
 
 		} else if ident == t.IDCoroutineResumed {
 			if g.currFunk.astFunc.Effect().Coroutine() {
+				g.currFunk.usesCoroResumed = true
 				b.printf("(self->private_impl.%s%s != 0)",
 					pPrefix, g.currFunk.astFunc.FuncName().Str(g.tm))
 			} else {
